@@ -178,4 +178,34 @@ theorem C15_plain_subscriptions_indexed_seq (caps : Caps) (ops : List Op) (hseq 
 example : IndexSyncPlain (run (init {}) demoExpiry) := by decide
 example : IndexSyncConv (run (init {}) demoExpiry) := by decide
 
+/-! the discipline `SchedOK` admits the schedules of the harness: a handler parked before its clean-up while the same
+    client id reconnects (takeover of the parked session) and is released afterwards; a CONNECT parked in the
+    authentication hook and one parked after `Clients.Add`, each released later; a handler parked right after its read
+    loop; a `clients` tick while handlers are parked that expires none of them -/
+def demoSchedule : List Op :=
+  [.connect 1 { ver := 5, id := demoA, sei := some 0 },
+   .recv 1 (.subscribe 1 0 [{ filter := [97] }, { filter := demoShare }]),
+   .dropHold 1,
+   .connect 2 { ver := 5, id := demoA, clean := false, sei := some 50 },
+   .release 1,
+   .connectHold 3 { ver := 5, id := demoB, sei := some 100 } 1,
+   .tick "clients" (NOW + 5),
+   .release 3,
+   .recv 3 (.subscribe 1 0 [{ filter := [98] }]),
+   .connectHold 4 { ver := 5, id := demoB, clean := false, sei := some 100 } 2,
+   .dropHoldEarly 2,
+   .release 4,
+   .release 2,
+   .tick "clients" (NOW + 100)]
+
+example : ¬ SeqOps demoSchedule := by decide
+example : OpsFresh (init {}) demoSchedule := by decide
+example : OpsSchedOK (init {}) demoSchedule := by decide
+/-- `A`'s session was resumed by connection 2 while the old handler was parked, lost its connection and expired at the
+    last tick; `B`'s session was inherited by connection 4 -/
+example : indexEntries (run (init {}) (demoSchedule.take 13)).topics =
+    [(demoA, [97]), (demoA, demoShare), (demoB, [98])] := by decide
+example : indexEntries (run (init {}) demoSchedule).topics = [(demoB, [98])] := by decide
+example : (run (init {}) demoSchedule).clients = [(inlineID, 0), (demoB, 4)] := by decide
+
 end Mochi.Broker
